@@ -102,7 +102,7 @@ type bitPool struct {
 	length    uint16
 	bits      [MaskTotalBits]uint8
 	next      uint8
-	available uint8
+	available uint16
 }
 
 // Get returns a fresh or recycled bit.
